@@ -2,7 +2,9 @@
 package main
 
 import (
+	"encoding/hex"
 	"fmt"
+	"hash/fnv"
 	"go/types"
 	"sort"
 	"strings"
@@ -448,6 +450,54 @@ func initMiscIntrinsics() {
 			}
 		}
 		return nil, true
+	})
+
+	// istio.io/istio/pkg/util/hash: the digest is abstracted to its input stream.
+	// Concrete content hashes with FNV-64a (any fixed function is a sound stand-in unless the code
+	// depends on xxhash's numeric values); symbolic content hashes with an uninterpreted function.
+	type hstate struct{ s *Term }
+	getH := func(fr *frame, recv value) *hstate {
+		side := needPathOrInit(fr)
+		type hk struct{ p *value }
+		key := hk{recv.(*value)}
+		if s, ok := side[key]; ok {
+			return s.(*hstate)
+		}
+		s := &hstate{s: mkStr("")}
+		side[key] = s
+		return s
+	}
+	const hp = "(*istio.io/istio/pkg/util/hash.instance)."
+	reg(hp+"WriteString", func(fr *frame, a []value) (value, bool) {
+		checkPoison("hash.WriteString", a[1])
+		h := getH(fr, a[0])
+		h.s = strConcat(h.s, lift(a[1]))
+		return intV(strLen(lift(a[1]))), true
+	})
+	reg(hp+"Write", func(fr *frame, a []value) (value, bool) {
+		h := getH(fr, a[0])
+		bs := a[1].([]value)
+		h.s = strConcat(h.s, lift(bytesToStringTerm(bs)))
+		return len(bs), true
+	})
+	reg(hp+"Reset", func(fr *frame, a []value) (value, bool) { getH(fr, a[0]).s = mkStr(""); return nil, true })
+	reg(hp+"Sum64", func(fr *frame, a []value) (value, bool) {
+		h := getH(fr, a[0])
+		if h.s.IsConst() {
+			f := fnv.New64a()
+			f.Write([]byte(h.s.Str))
+			return f.Sum64(), true
+		}
+		return mkApp("go_hash64", bvSort(64), h.s), true
+	})
+	reg(hp+"Sum", func(fr *frame, a []value) (value, bool) {
+		h := getH(fr, a[0])
+		if h.s.IsConst() {
+			f := fnv.New64a()
+			f.Write([]byte(h.s.Str))
+			return hex.EncodeToString(f.Sum(nil)), true
+		}
+		return mkApp("go_hashhex", sortStr, h.s), true
 	})
 
 	// log levels: logging is stubbed, so no level is enabled
